@@ -48,6 +48,18 @@ class Num(Enum):
     ONE = 1
 
 
+class Corner(str, Enum):
+    """a str-mixin enum: its members are `str` instances whose text is the value, while `str()` of one is `Corner.FAST`"""
+    FAST = "ff"
+    WEIRD = "a b=c"
+
+
+class Loud(str):
+    """a str subclass whose `str()` is not its text"""
+    def __str__(self):
+        return "LOUD:" + str.__str__(self)
+
+
 def dec_of(c, e):
     c = int(c)
     return Decimal((1 if c < 0 else 0, tuple(int(ch) for ch in str(abs(c))), e))
@@ -68,7 +80,11 @@ def mk_value(v):
     if k == "literal":
         return h.Literal(v["s"])
     if k == "enum_str":
+        if v.get("mix") == "strenum":
+            return Corner.FAST if v["s"] == "ff" else Corner.WEIRD
         return Color.RED if v["s"] == "red" else Color.WEIRD
+    if k == "str" and v.get("mix") == "loud":
+        return Loud(v["s"])
     if k == "enum_other":
         return Num.ONE
     if k == "prefixed":
@@ -232,7 +248,8 @@ def instances_check(ctx):
         prim = getattr(P, pname)
         fields = list(prim.Params.__params__.keys())
         for trial in range(4 if ctx.quick else 40):
-            vals = {f: rng.choice(RAWS) for f in fields if rng.random() < 0.8}
+            # some fields explicitly None (where the field allows it): None is omitted — the field's default is not written instead
+            vals = {f: (None if rng.random() < 0.15 else rng.choice(RAWS)) for f in fields if rng.random() < 0.8}
             try:
                 call = prim(**vals)
             except Exception:
@@ -259,6 +276,8 @@ def instances_check(ctx):
             for f in fields:
                 val = getattr(call.params, f)
                 key = PULSE[f] if pname == "PulseVoltageSource" else f
+                if f in vals and vals[f] is None:
+                    continue
                 if f in vals:
                     want[key] = scalar_expect(vals[f])
                 elif val is not None:
@@ -273,18 +292,26 @@ def instances_check(ctx):
         n = h.Param(dtype=int, desc="n", default=3)
         f = h.Param(dtype=float, desc="f", default=0.1)
         c = h.Param(dtype=Color, desc="c", default=Color.RED)
+        k = h.Param(dtype=Corner, desc="k", default=Corner.FAST)
         o = h.Param(dtype=Optional[h.Scalar], desc="o", default=None)
+        # fields which may be given as None although their default is something else: None is omitted, the default is not written
+        on = h.Param(dtype=Optional[int], desc="on", default=4)
+        os_ = h.Param(dtype=Optional[h.Scalar], desc="os_", default=7)
 
     for trial in range(30 if ctx.quick else 600):
-        dvals = {"p%d" % i: rng.choice([None, "str ing", 5, -(2**63), 2**63 - 1, 0.1, 1e-300, Decimal("2.50"), h.Literal("a+b"), Color.WEIRD,
+        dvals = {"p%d" % i: rng.choice([None, "str ing", 5, -(2**63), 2**63 - 1, 0.1, 1e-300, Decimal("2.50"), h.Literal("a+b"), Color.WEIRD, Corner.FAST, Corner.WEIRD, Loud("lo ud"),
                                          3 * Prefix.MILLI, Prefixed(number=Decimal("1E+30"), prefix=Prefix.YOCTO)]) for i in range(rng.randint(1, 5))}
         E1 = h.ExternalModule(name="E1", port_list=[h.Port(name="a")], paramtype=dict)
         E2 = h.ExternalModule(name="E2", port_list=[h.Port(name="a")], paramtype=EP)
         m = h.Module(name="T")
         m.a = h.Signal()
         m.x = E1(dvals)(a=m.a)
-        pv = dict(a=rng.choice(RAWS), s=rng.choice(["", "q r", "ü"]), n=rng.randint(-5, 5), f=rng.choice([0.1, 1e-7, 3.0]), c=rng.choice(list(Color)))
-        m.y = E2(**pv)(a=m.a)
+        pv = dict(a=rng.choice(RAWS), s=rng.choice(["", "q r", "ü"]), n=rng.randint(-5, 5), f=rng.choice([0.1, 1e-7, 3.0]), c=rng.choice(list(Color)), k=rng.choice(list(Corner)))
+        for f_, choices in (("on", [None, None, 0, 9]), ("os_", [None, None, 0, "2.5"])):
+            if rng.random() < 0.7:
+                pv[f_] = rng.choice(choices)
+        # by keywords, or by a ready-made parameter object
+        m.y = (E2(**pv) if rng.random() < 0.7 else E2(EP(**pv)))(a=m.a)
         case = {"stream": "instances", "ext": {k: repr(v) for k, v in {**dvals, **pv}.items()}}
         rep.count("instances", json.dumps(case))
         try:
@@ -300,8 +327,10 @@ def instances_check(ctx):
                 continue
             if isinstance(v, Prefixed):
                 want[k] = scalar_expect(v)
+            elif isinstance(v, Enum) and isinstance(v, str):
+                want[k] = ("literal", v.value)
             elif isinstance(v, (str,)):
-                want[k] = ("literal", v)
+                want[k] = ("literal", str.__str__(v))
             elif isinstance(v, h.Literal):
                 want[k] = ("literal", v.text)
             elif isinstance(v, Enum):
@@ -315,7 +344,13 @@ def instances_check(ctx):
         if got != want:
             rep.fail("pred", case, {"why": "dict parameters differ", "got": str(got), "want": str(want)})
         goty = {p.name: pval_exact(p.value) for p in iy.parameters}
-        wanty = {"a": scalar_expect(pv["a"]), "s": ("literal", pv["s"]), "n": ("int", pv["n"]), "f": ("float", float(pv["f"]).hex()), "c": ("literal", pv["c"].value)}
+        wanty = {"a": scalar_expect(pv["a"]), "s": ("literal", pv["s"]), "n": ("int", pv["n"]), "f": ("float", float(pv["f"]).hex()), "c": ("literal", pv["c"].value),
+                 "k": ("literal", pv["k"].value)}
+        on_, os__ = pv.get("on", 4), pv.get("os_", 7)
+        if on_ is not None:
+            wanty["on"] = ("int", on_)
+        if os__ is not None:
+            wanty["os_"] = scalar_expect(os__)
         if goty != wanty:
             rep.fail("pred", case, {"why": "paramclass parameters differ", "got": str(goty), "want": str(wanty)})
     # the Mos primitive and its Nmos / Pmos wrappers, by keywords and by parameter object
@@ -373,7 +408,8 @@ def gen_values(rng, n):
     # corpus: pinned-tree witness (integer beyond int64 raised), exactness edge cases
     out += [{"v": P(1, 30, 0)}, {"v": P(2**63, 0, 3)}, {"v": P(2**63 - 1, 0, -9)}, {"v": P(-(2**63), 0, 0)}, {"v": P(10, -1, 3)},
             {"v": P(15, -1, -9)}, {"v": P(0, 0, 0)}, {"v": P(0, -3, 24)}, {"v": {"k": "int", "i": str(2**63)}}, {"v": {"k": "enum_other"}},
-            {"v": {"k": "other"}}, {"v": {"k": "none"}}, {"v": {"k": "enum_str", "s": "a b=c"}}]
+            {"v": {"k": "other"}}, {"v": {"k": "none"}}, {"v": {"k": "enum_str", "s": "a b=c"}},
+            {"v": {"k": "enum_str", "s": "ff", "mix": "strenum"}}, {"v": {"k": "enum_str", "s": "a b=c", "mix": "strenum"}}, {"v": {"k": "str", "s": "x y", "mix": "loud"}}]
     prefixes = list(BYVAL)
     for i in range(n):
         r = rng.random()
